@@ -143,12 +143,39 @@ func metaMain(args mon.Args) {
 		if proto == "ipfix" && g.Bool() {
 			miss = wire.Field{PEN: uint32(g.Range(70000, 90000)), ID: uint16(g.Range(1, 500)), Len: uint16(g.Range(1, 8)), Type: "?"}
 		}
-		if g.Bool() {
-			tu.Fields = []wire.Field{miss, wire.FieldOf(g, snap[g.Intn(len(snap))], wire.GenOpts{})}
-		} else {
-			tu.Fields = []wire.Field{wire.FieldOf(g, snap[g.Intn(40)], wire.GenOpts{}), miss}
+		known1 := wire.FieldOf(g, snap[g.Intn(40)], wire.GenOpts{})
+		for known1.Len == 0 {
+			known1 = wire.FieldOf(g, snap[g.Intn(40)], wire.GenOpts{})
 		}
-		tuSet := wire.Set{Kind: wire.SetTemplate, Templates: []*wire.Template{tu}}
+		tuKind := wire.SetTemplate
+		switch g.Intn(5) {
+		case 0:
+			tu.Fields = []wire.Field{miss, known1}
+		case 1:
+			tu.Fields = []wire.Field{known1, miss}
+		case 2: // options template, the missing element in a scope position
+			tu.Options, tuKind = true, wire.SetOptTemplate
+			tu.Scope, tu.Fields = []wire.Field{miss}, []wire.Field{known1}
+		case 3: // options template, scope known, option field missing
+			tu.Options, tuKind = true, wire.SetOptTemplate
+			tu.Scope, tu.Fields = []wire.Field{known1}, []wire.Field{miss}
+		default: // options template, second scope field missing
+			tu.Options, tuKind = true, wire.SetOptTemplate
+			tu.Scope, tu.Fields = []wire.Field{known1, miss}, []wire.Field{known1}
+		}
+		if proto == "nf9" {
+			// v9 field types carry no enterprise number
+			for i := range tu.Scope {
+				tu.Scope[i].PEN = 0
+			}
+			for i := range tu.Fields {
+				tu.Fields[i].PEN = 0
+			}
+		}
+		tuSet := wire.Set{Kind: tuKind, Templates: []*wire.Template{tu}}
+		if proto == "nf9" {
+			tuSet.Pad = (4 - wire.SetLen(&tuSet)%4) % 4
+		}
 		tuD, _ := wire.EncodeFlow(proto, []uint32{1, 2, 3, 4}, []wire.Set{tuSet})
 		pre := append([][]byte{tuD}, fc.Dgrams[:last]...)
 		var preHex []string
@@ -220,7 +247,7 @@ func metaMain(args mon.Args) {
 				if len(pert) > 65000 {
 					continue
 				}
-				run.Distinct(fmt.Sprintf("%s|%s|pos%d/%d|body%d|nested%v", proto, kind, p, len(baseSets), len(u.RawBody)%8, nested))
+				run.Distinct(fmt.Sprintf("%s|%s|pos%d/%d|body%d|nested%v|opt%v", proto, kind, p, len(baseSets), len(u.RawBody)%8, nested, tu.Options && kind == "missing-element"))
 				run.Add("insertions", 1)
 				detail := fmt.Sprintf("set id %d with %d body octets (valid nested set: %v) inserted before set #%d of %d", u.SetID, len(u.RawBody), nested, p, len(baseSets))
 				mk("insert:"+kind, detail, pert)
